@@ -150,7 +150,7 @@ def run(ck):
     harness = c48lib.build(ck, "c49h", os.path.join(vlib.VERIF, "harness", "C49", "harness.cxx"),
                            c48lib.MTEST_SOURCES + c48lib.ACCEL_SOURCES)
     driver = ck.lean_exe("c49driver", "TfelVerif/C49/Driver.lean")
-    res = ck.lean(PROPS, PROPS)
+    res = c48lib.lean_checked(ck, PROPS)
     ck.lean_violations(res)
     if not ck.quick:
         for m, msg in ck.leanchecker(PROPS):
